@@ -1125,6 +1125,48 @@ func (f *Flooder) floodFrame(fromPeer identity.AgentID, seenBy []identity.AgentI
 	}
 }
 
+// OnPeerDisconnected must be called when a peer connection is lost, BEFORE the
+// routes learned from that peer are removed from the routing tables. It
+// forgets the seen-cache entries of the advertisements those routes came from.
+//
+// A full-table replay carries the origin's sequence numbers. Without this, a
+// peer that reconnects within the seen-cache lifetime (link flap, wake from
+// sleep) replays exactly the advertisements whose routes were just removed,
+// they are dropped as "already seen", and the routes stay missing until the
+// origin's next periodic announcement.
+func (f *Flooder) OnPeerDisconnected(peerID identity.AgentID) {
+	keys := make(map[AdvertisementKey]struct{})
+	for _, r := range f.routeMgr.Table().GetAllRoutes() {
+		if r.NextHop == peerID && r.OriginAgent != f.localID {
+			keys[AdvertisementKey{OriginAgent: r.OriginAgent, Sequence: r.Sequence}] = struct{}{}
+		}
+	}
+	for _, r := range f.routeMgr.DomainTable().GetAllRoutes() {
+		if r.NextHop == peerID && r.OriginAgent != f.localID {
+			keys[AdvertisementKey{OriginAgent: r.OriginAgent, Sequence: r.Sequence}] = struct{}{}
+		}
+	}
+	for _, r := range f.routeMgr.ForwardTable().GetAllRoutes() {
+		if r.NextHop == peerID && r.OriginAgent != f.localID {
+			keys[AdvertisementKey{OriginAgent: r.OriginAgent, Sequence: r.Sequence}] = struct{}{}
+		}
+	}
+	for _, r := range f.routeMgr.AgentTable().GetAllRoutes() {
+		if r.NextHop == peerID {
+			keys[AdvertisementKey{OriginAgent: r.OriginAgent, Sequence: r.Sequence}] = struct{}{}
+		}
+	}
+	if len(keys) == 0 {
+		return
+	}
+
+	f.mu.Lock()
+	for key := range keys {
+		delete(f.seenCache, key)
+	}
+	f.mu.Unlock()
+}
+
 // HasSeen checks if an advertisement has been seen.
 func (f *Flooder) HasSeen(originAgent identity.AgentID, sequence uint64) bool {
 	key := AdvertisementKey{
